@@ -15,12 +15,13 @@ from . import geo_build
 
 LOW = ('ADD_NODE', 'DEL_NODE', 'ADD_COL', 'DEL_COL', 'DEL_CON', 'ADD_CON', 'ADD_LAYER',
        'DEL_LAYER', 'RENAME_LAYER', 'ADD_WELL', 'DEL_WELL', 'REFRESH')
-HIGH = ('RENAME_COL', 'SPLIT', 'REFINE', 'REFINE_LAYERS', 'DECOMPOSE', 'REDUCE', 'CHECK_FIX',
+XHIGH = ('XREFINE', 'XSPLIT', 'XDECOMP', 'XREDUCE', 'XREFLAY', 'XSETSURF', 'XRENCOL')
+HIGH = XHIGH + ('RENAME_COL', 'SPLIT', 'REFINE', 'REFINE_LAYERS', 'DECOMPOSE', 'REDUCE', 'CHECK_FIX',
         'SNAP', 'SNAP_NEAREST', 'SET_SURFACE', 'TRANSLATE', 'ROTATE', 'COPY_LAYERS',
         'DEL_ORPHANS', 'FIT_SURFACE', 'SET_OPTION', 'PERSIST')
 ATMCOL = ('ATM', ' 0', '  0', 'ATM')
 # ops that recompute the derived block / connection name lists themselves
-REFRESHING = ('INIT', 'REFRESH', 'RENAME_LAYER', 'RENAME_COL', 'SPLIT', 'REFINE', 'REFINE_LAYERS',
+REFRESHING = XHIGH + ('XINIT', 'INIT', 'REFRESH', 'RENAME_LAYER', 'RENAME_COL', 'SPLIT', 'REFINE', 'REFINE_LAYERS',
               'DECOMPOSE', 'REDUCE', 'SNAP', 'SNAP_NEAREST', 'SET_SURFACE', 'COPY_LAYERS',
               'FIT_SURFACE', 'SET_OPTION', 'PERSIST')
 # ops that change no name, column, connection, layer or surface (lists stay as fresh as they were)
@@ -368,14 +369,15 @@ class GeoMachine(Machine):
     def apply(self, op):
         kind, ch = op[0], list(op[1]) + [0] * 8
         ctx = self.ctx
-        if self.geo is None and kind != 'INIT':
+        if self.geo is None and kind not in ('INIT', 'XINIT'):
             ctx.stats['skip_noinit'] += 1
             return
         high = kind in HIGH
         pre_ok = None
         if high and kind != 'PERSIST':
             pre_ok = not mesh_problems(self.geo) and edge_connected(self.geo)
-        if kind in ('REFINE', 'SPLIT', 'DECOMPOSE', 'FIT_SURFACE', 'RENAME_COL') and not pre_ok:
+        if kind in ('REFINE', 'SPLIT', 'DECOMPOSE', 'FIT_SURFACE', 'RENAME_COL', 'XREFINE', 'XSPLIT',
+                    'XDECOMP', 'XRENCOL') and not pre_ok:
             # these ops take a valid mesh to a valid mesh; on a mesh that low-level edits left
             # with missing connections or orphans they promise nothing (refine may refuse loudly)
             ctx.stats['skip_%s_pre_invalid' % kind] += 1
@@ -409,8 +411,8 @@ class GeoMachine(Machine):
             self.index_fresh = False
         if self.index_fresh and self.layers_fresh:
             self.check_names(kind)
-        if high or kind == 'INIT':
-            establishes = kind in ('REDUCE', 'CHECK_FIX', 'INIT', 'PERSIST')
+        if high or kind in ('INIT', 'XINIT'):
+            establishes = kind in ('REDUCE', 'XREDUCE', 'CHECK_FIX', 'INIT', 'XINIT', 'PERSIST')
             if pre_ok or establishes:
                 probs = mesh_problems(geo)
                 if kind == 'PERSIST' and not self.persist_pre_ok:
@@ -472,6 +474,153 @@ class GeoMachine(Machine):
         self.layers_fresh = True
         self.index_fresh = True
         return src
+
+    # ---- deterministic sweep (C10 quantifier: every sequence of column / layer editing ops with
+    #      every column subset on 2x2, 3x2 and the small mixed meshes, up to a bound)
+    SWEEP_GEOS = (('rect', 2, 2), ('rect', 3, 2), ('toy', 0, 0), ('toy', 1, 0), ('toy', 2, 0))
+
+    @staticmethod
+    def sweep_masks(ncol):
+        if ncol <= 4:
+            return list(range(1, 2 ** ncol))
+        ms = [1 << i for i in range(ncol)]
+        ms += [(1 << i) | (1 << j) for i in range(ncol) for j in range(i + 1, ncol)]
+        return ms + [2 ** ncol - 1]
+
+    @classmethod
+    def sweep_alphabet(cls, gi):
+        kind, a, b = cls.SWEEP_GEOS[gi]
+        ncol = a * b if kind == 'rect' else (5, 6, 5)[a]
+        masks = cls.sweep_masks(ncol)
+        ops = [['XREFINE', [m, bm]] for m in masks for bm in range(4)]
+        ops += [['XSPLIT', [c, k]] for c in range(ncol) for k in range(4)]
+        ops += [['XDECOMP', [m]] for m in masks]
+        ops += [['XREDUCE', [m]] for m in masks if m != 2 ** ncol - 1]
+        ops += [['DEL_COL', [c, 0, 0, 0]] for c in range(ncol)]
+        ops += [['XREFLAY', [lm, f]] for lm in (1, 2, 3) for f in (2, 3)]
+        ops += [['XSETSURF', [m, lv]] for m in masks for lv in range(2)]
+        ops += [['XRENCOL', [c, k]] for c in range(ncol) for k in range(2)]
+        ops += [['CHECK_FIX', [0, 0, 0, 0]], ['REFRESH', [0, 0, 0, 0]]]
+        return ops
+
+    _SWEEP = None
+
+    @classmethod
+    def sweep_layout(cls):
+        if cls._SWEEP is None:
+            segs = []
+            for gi in range(len(cls.SWEEP_GEOS)):
+                a = len(cls.sweep_alphabet(gi))
+                segs.append((gi, 1, a))
+                segs.append((gi, 2, a * a))
+            cls._SWEEP = segs
+        return cls._SWEEP
+
+    @classmethod
+    def sweep_size(cls, tier):
+        return sum(s[2] for s in cls.sweep_layout())
+
+    @classmethod
+    def sweep_case(cls, i, tier):
+        for gi, L, cnt in cls.sweep_layout():
+            if i < cnt:
+                alpha = cls.sweep_alphabet(gi)
+                ops = []
+                for _ in range(L):
+                    k, c = alpha[i % len(alpha)]
+                    ops.append([k, list(c), None])
+                    i //= len(alpha)
+                return ({'tier': tier, 'sweep': True, 'source': 'sweep', 'bufsize': None},
+                        [['XINIT', [gi], None]] + ops)
+            i -= cnt
+        raise IndexError(i)
+
+    def op_XINIT(self, ch):
+        kind, a, b = self.SWEEP_GEOS[ch[0] % len(self.SWEEP_GEOS)]
+        if kind == 'rect':
+            self.geo = geo_build.rect(self.mg, 7, a, b, 2, convention=0, atmos=0)
+        else:
+            self.geo = geo_build.toy(self.mg, a, convention=0, atmos=0)
+        self.layers_fresh = self.index_fresh = True
+        return ch[0]
+
+    def mask_cols(self, mask):
+        cols = [c for i, c in enumerate(self.geo.columnlist) if mask >> i & 1]
+        return cols or [self.geo.columnlist[0]]
+
+    def op_XREFINE(self, ch):
+        geo = self.geo
+        if any(len(c.node) not in (3, 4) for c in geo.columnlist) or geo.num_columns > 400:
+            return False
+        bisect = (False, True, 'x', 'y')[ch[1] % 4]
+        cols = self.mask_cols(ch[0])
+        self.call(lambda: geo.refine([c.name for c in cols], bisect=bisect), 'refine')
+        return (ch[0], str(bisect))
+
+    def op_XSPLIT(self, ch):
+        geo = self.geo
+        col = geo.columnlist[ch[0] % len(geo.columnlist)]
+        if len(col.node) != 4:
+            return False
+        ok = self.call(lambda: geo.split_column(col.name, col.node[ch[1] % 4].name), 'split_column')
+        if not ok:
+            raise Violation('EXC.split_column', 'split_column refused a quadrilateral column')
+
+    def op_XDECOMP(self, ch):
+        cols = self.mask_cols(ch[0])
+        self.call(lambda: self.geo.decompose_columns([c.name for c in cols]), 'decompose_columns')
+
+    def op_XREDUCE(self, ch):
+        geo = self.geo
+        cols = self.mask_cols(ch[0])
+        if len(cols) >= len(geo.columnlist):
+            return False
+        # keep the geometry in one piece (the property quantifies over connected geometries)
+        class _G(object):
+            pass
+        g2 = _G()
+        g2.columnlist = cols
+        if not edge_connected(g2):
+            return False
+        self.call(lambda: geo.reduce([c.name for c in cols]), 'reduce')
+
+    def op_XREFLAY(self, ch):
+        geo = self.geo
+        if len(geo.layerlist) < 2 or len(geo.layerlist) > 30:
+            return False
+        lays = [l for i, l in enumerate(geo.layerlist[1:]) if ch[0] >> i & 1] or [geo.layerlist[1]]
+        self.call(lambda: geo.refine_layers([l.name for l in lays], 2 + ch[1] % 2), 'refine_layers')
+
+    def op_XSETSURF(self, ch):
+        geo = self.geo
+        if len(geo.layerlist) < 3:
+            return False
+        lay = geo.layerlist[1]
+        z = lay.centre if ch[1] % 2 else lay.bottom
+        cols = self.mask_cols(ch[0])
+        def go():
+            for c in cols:
+                c.surface = z
+                geo.set_column_num_layers(c)
+            geo.setup_block_name_index()
+            geo.setup_block_connection_name_index()
+        self.call(go, 'set surface')
+
+    def op_XRENCOL(self, ch):
+        geo = self.geo
+        n = len(geo.columnlist)
+        a = geo.columnlist[ch[0] % n]
+        if ch[1] % 2 and n >= 2:
+            b = geo.columnlist[(ch[0] + 1) % n]
+            old, new = [a.name, b.name], [b.name, a.name]
+        else:
+            free = self.free_col_names(1, 0)
+            if not free:
+                return False
+            old, new = a.name, free[0]
+        ok = self.call(lambda: geo.rename_column(old, new), 'rename_column')
+        if ok is False:
+            raise Violation('EXC.rename_column', 'rename_column refused a valid one-to-one map')
 
     # ---- low level
     def op_ADD_NODE(self, ch):
